@@ -603,3 +603,13 @@ func refScanTag(tag string, unquote func(string) (string, error)) (refTag, bool)
 	}
 	return ret, true
 }
+
+// refIndexStr: first index of sub in s, or -1 (concrete-friendly).
+func refIndexStr(s, sub string) int {
+	for i := 0; i+len(sub) <= len(s); i++ {
+		if s[i:i+len(sub)] == sub {
+			return i
+		}
+	}
+	return -1
+}
